@@ -961,8 +961,72 @@ impl serde::Serialize for CollectStr {
     }
 }
 
+/// The public error algebra: every constructor, then `at` / `with_message` on top, observed through the class
+/// predicates and `position()`. These functions exist twice (with and without `alloc`).
+fn decode_error_api() -> Vec<Rec> {
+    let ctors: [fn() -> decode::Error; 6] = [
+        || decode::Error::end_of_input(),
+        || decode::Error::type_mismatch(minicbor::data::Type::Bool),
+        || decode::Error::tag_mismatch(minicbor::data::Tag::new(5)),
+        || decode::Error::message("m"),
+        || decode::Error::unknown_variant(3),
+        || decode::Error::missing_value(2),
+    ];
+    let mut out = Vec::new();
+    for c in ctors {
+        let variants: [decode::Error; 6] = [c(), c().at(7), c().with_message("ctx"), c().at(7).with_message("ctx"), c().with_message("ctx").at(9), c().at(7).at(0)];
+        for e in variants {
+            out.push(Rec { class: class_of(&e), pos: 0, digest: e.position().map(|p| p as u64 + 1).unwrap_or(0) });
+        }
+    }
+    out
+}
+
+fn enc_err_class<E>(e: &minicbor::encode::Error<E>) -> u8 {
+    (if e.is_write() { 1 } else { 0 }) | (if e.is_message() { 2 } else { 0 })
+}
+
+/// A value whose `Encode` impl annotates whatever error its field produced.
+struct Annot(u32);
+impl<C> Encode<C> for Annot {
+    fn encode<W: minicbor::encode::Write>(&self, e: &mut minicbor::Encoder<W>, _: &mut C) -> Result<(), minicbor::encode::Error<W::Error>> {
+        e.array(1).map_err(|x| x.with_message("annot-head"))?;
+        e.u32(self.0).map_err(|x| x.with_message("annot-field"))?;
+        Ok(())
+    }
+}
+
+fn encode_error_api() -> Vec<Rec> {
+    type E = minicbor::encode::Error<u8>;
+    let mut out = Vec::new();
+    let ctors: [fn() -> E; 2] = [|| E::write(3u8), || E::message("m")];
+    for c in ctors {
+        for e in [c(), c().with_message("ctx"), c().with_message("ctx").with_message("ctx2")] {
+            out.push(Rec { class: enc_err_class(&e), pos: 0, digest: 0 });
+        }
+    }
+    // write errors of a too-small slice, plain and annotated by an `Encode` impl
+    for cap in 0..6usize {
+        let mut buf = [0u8; 8];
+        let r = minicbor::encode(&Annot(70000), &mut buf[..cap]);
+        out.push(match r {
+            Ok(()) => Rec { class: 0, pos: cap as u32, digest: 1 },
+            Err(e) => Rec { class: 10 + enc_err_class(&e), pos: cap as u32, digest: 0 },
+        });
+        let mut buf = [0u8; 8];
+        let r = minicbor::encode(&[70000u32], &mut buf[..cap]);
+        out.push(match r {
+            Ok(()) => Rec { class: 0, pos: cap as u32, digest: 1 },
+            Err(e) => Rec { class: 10 + enc_err_class(&e), pos: cap as u32, digest: 0 },
+        });
+    }
+    out
+}
+
 fn value_ops() -> Vec<VOp> {
     vec![
+        VOp { name: "decode-error-api", run: decode_error_api },
+        VOp { name: "encode-error-api", run: encode_error_api },
         VOp { name: "encode+len<u64>", run: || refmodel::enumerate::lattice64().iter().map(|x| enc_rec(x)).collect() },
         VOp { name: "encode+len<i64>", run: || refmodel::enumerate::lattice_int().iter().filter(|v| **v >= i64::MIN as i128 && **v <= i64::MAX as i128).map(|x| enc_rec(&(*x as i64))).collect() },
         VOp { name: "encode+len<f32/f64/char/bool>", run: || vec![enc_rec(&1.5f32), enc_rec(&f32::NAN), enc_rec(&-0.0f64), enc_rec(&'\u{10ffff}'), enc_rec(&true), enc_rec(&()), enc_rec(&Some(7u8)), enc_rec(&None::<u8>)] },
